@@ -246,6 +246,10 @@ class Harness:
                     g.open.wait(30)
                 h._actions(self, h.prog["handlers"].get(tag, []), tag)
 
+        if prog.get("unhashable_model"):
+            # a model class with value equality and therefore no hash (a dataclass-like model, or one derived from list / dict)
+            ProgModel.__eq__ = lambda self, other: self is other
+            ProgModel.__hash__ = None
         if prog.get("empty_container_model"):
             # a model class that is also the container of its entities (it has __len__) and is still empty: falsy, yet a model
             ProgModel.__len__ = lambda self: 0
@@ -297,6 +301,26 @@ class Harness:
         r = prog["rep"]
         self.replication = SingleReplication("rep", time_value(prog, r["start"]), time_value(prog, r["warmup"]),
                                              time_value(prog, r["length"]))
+        if prog.get("plain_replication"):
+            # a model-defined replication object: it implements ReplicationInterface (the three times) and nothing else
+            lib = self.replication
+
+            class PlainReplication(ReplicationInterface):
+                def __init__(self, start, warm, end):
+                    self._s, self._w, self._e = start, warm, end
+
+                @property
+                def start_sim_time(self):
+                    return self._s
+
+                @property
+                def warmup_sim_time(self):
+                    return self._w
+
+                @property
+                def end_sim_time(self):
+                    return self._e
+            self.replication = PlainReplication(lib.start_sim_time, lib.warmup_sim_time, lib.end_sim_time)
         strat = prog.get("strategy")
         if strat:
             from pydsol.core.simulator import ErrorStrategy
@@ -581,7 +605,12 @@ class Harness:
 
                     def notify(self, event):
                         h._published(self.key, self.st, event)
+                        if self.mode == "reset3" and event.event_type.name == "N_EVENT" and event.content == 3:
+                            # a batch-means subscriber: it closes the batch (re-initialises the statistic) once n reaches 3,
+                            # from inside the notification; what is published afterwards describes the new batch
+                            self.st.initialize()
                 wl = Watch(key, st)
+                wl.mode = sp["watch"]
                 for et in _stat_event_types(kind):
                     st.add_listener(et, wl)
 
